@@ -1511,8 +1511,16 @@ fn evaluate(c: &Case, mut stats: Option<&mut UStats>) -> Finds {
                     if is_new && issued.contains(&id) {
                         f.add("union_result_gives_used_id_to_new_term", || json!({"new_term": t.render(), "id": id, "id_already_denotes": tree_of(&ru.dict, &ru.store, id, 64).map(|t| t.render()).unwrap_or_default()}));
                     }
-                    if u.decode_any(id).as_deref() != Some(t.render().as_str()) {
-                        f.add("union_result_decode_is_not_inverse_of_encode", || json!({"term": t.render(), "id": id, "decodes_to": u.decode_any(id)}));
+                    // structural decode first (fuel-limited): a corrupted store can make the id
+                    // refer to itself, and decode_any would then recurse until the stack overflows
+                    match db_tree(&u, id) {
+                        Err(e) => f.add("union_result_id_of_new_term_does_not_decode_structurally", || json!({"term": t.render(), "id": id, "problem": e})),
+                        Ok(tr) if tr != *t => f.add("union_result_decode_is_not_inverse_of_encode", || json!({"term": t.render(), "id": id, "decodes_structurally_to": tr.render()})),
+                        Ok(_) => {
+                            if u.decode_any(id).as_deref() != Some(t.render().as_str()) {
+                                f.add("union_result_decode_is_not_inverse_of_encode", || json!({"term": t.render(), "id": id, "decodes_to": u.decode_any(id)}));
+                            }
+                        }
                     }
                     expect.terms.extend(pl);
                     expect.qterms.extend(qs);
